@@ -521,6 +521,47 @@ def build(tier, repo):
         else:
             r4.violation(key, m.where(bchain, fromfile), "bound type %s with value %s yields [%s, %s]; MPS defines [%s, %s]" % (bt, bval, got[0], got[1], want[0], want[1]), want, got)
 
+    # two BOUNDS lines for one column: each line refines the interval the previous one left (order must not matter for LO/UP/MI)
+    def _ref(state, bt, v):
+        lo, hi = state
+        v = float(v)
+        if bt == "LO":
+            lo = v
+        elif bt == "UP":
+            hi = v
+        elif bt == "MI":
+            lo = -INF
+        elif bt == "PL":
+            hi = INF
+        return (lo, hi)
+    pairs = [(("UP", "4.0"), ("MI", "0.0")), (("MI", "0.0"), ("UP", "4.0")), (("LO", "1.0"), ("UP", "4.0")), (("UP", "4.0"), ("LO", "1.0")),
+             (("MI", "0.0"), ("LO", "1.0")), (("LO", "1.0"), ("PL", "0.0"))]
+    for first, second in pairs:
+        key = "fromfile:bound lines %s %s then %s %s" % (first + second)
+        try:
+            env = {"bounds[collabel]": [0.0, None], "bounds[collabel][0]": 0.0, "bounds[collabel][1]": None, "collabel": "COL"}
+            for bt, bval in (first, second):
+                env["s[1:3].strip()"] = bt
+                env["s[24:36]"] = bval
+                out = []
+                run_block(bpre + [bchain], env, out)
+                b = env["bounds[collabel]"]
+                env = {"bounds[collabel]": list(b), "bounds[collabel][0]": b[0], "bounds[collabel][1]": b[1], "collabel": "COL"}
+            env2 = {bname: b, "%s[0]" % bname: b[0], "%s[1]" % bname: b[1], "v": "v"}
+            out2 = []
+            run_block(bfinal[0].body, env2, out2)
+            got = interval(out2, "v")
+        except Unknown as ex:
+            r4.undecided(key, m.where(bchain, fromfile), "not evaluated: %s" % ex)
+            continue
+        want = _ref(_ref((0.0, INF), *first), *second)
+        if got == want:
+            r4.ok(key, m.where(bchain, fromfile), "[%s, %s]" % got)
+        else:
+            r4.violation(key, m.where(bchain, fromfile),
+                         "%s %s followed by %s %s yields [%s, %s]; each BOUNDS line refines the interval left by the previous one: [%s, %s]"
+                         % (first + second + got + want), want, got)
+
     r5 = chk.rule("C14-R5", "tofile refuses non-LPs before opening the file", "tofile refuses problems that are not LPs")
     first_open = min((n.lineno for n in ast.walk(tofile) if isinstance(n, ast.Call) and pf.call_name(n) == "open"), default=None)
     guard = [s for s in tofile.body if isinstance(s, ast.If) and "self._islp()" in pf.norm_expr(s.test) and pf.always_exits(s.body)]
@@ -630,6 +671,9 @@ def build(tier, repo):
                      "raise ValueError when len(set(labels)) < len(labels)", "absent")
     r8.require(1)
     from .. import modeling_rules as mr5
+    r10 = chk.rule("C14-R10", "shape dispatch of a coefficient tests the row shape before the scalar shape", "the file written has the coefficients of the problem")
+    chk.note_analysed("shape_dispatch_chains", mr5.shape_dispatch_order_rule(r10, w))
+    r10.require(1)
     r9 = chk.rule("C14-R9", "the reader never removes elements from a list it is iterating over", "fromfile builds exactly the constraints the format defines")
     chk.note_analysed("loops_with_list_mutation", mr5.iterate_and_mutate_rule(r9, w))
     return chk
